@@ -776,10 +776,11 @@ def gen_cases(prop, u, seed, tier, probe=None):
                     ops = ';'.join(('w:' + rb(5),) + combo)
                     cs.add('cursor 16 ' + ops, kind='cursor', family='provided-len%d' % L, val=ops)
         # `write_vectored` with no buffer at all and with one buffer, at, before and past the end
-        wv = ['wv', 'wv:' + rb(3), 'p:2', 'p:9', 'p:40', 'se:3', 'r:3', 'w:' + rb(2)]
+        wv = ['wv', 'wv:' + rb(3), 'wv:' + rb(2) + '|' + rb(3), 'wv:|' + rb(1) + '||' + rb(2), 'wv:|', 'rv', 'rv:2|3', 'rv:0|1|0|4', 'rv:0',
+              'p:2', 'p:9', 'p:40', 'se:3', 'r:3', 'w:' + rb(2)]
         for L in range(1, 4):
             for combo in itertools.product(wv, repeat=L):
-                if any(x[:2] == 'wv' for x in combo):
+                if any(x[:2] in ('wv', 'rv') for x in combo):
                     for first in (('w:' + rb(5),), ()):
                         ops = ';'.join(first + combo)
                         cs.add('cursor %s %s' % ('16' if first else '32', ops), kind='cursor', family='vectored-len%d' % L, val=ops)
@@ -799,7 +800,7 @@ def gen_cases(prop, u, seed, tier, probe=None):
             if c < 0.95: return 'ra'
             if c < 0.97: return 'rx:%d' % rng.choice([0, 1, 3, 16, 40, 300])
             if c < 0.985: return 'wa:' + rb(rng.choice([0, 0, 1, 8, 33]))
-            if c < 0.995: return rng.choice(['wv', 'wv', 'wv:' + rb(9)])
+            if c < 0.995: return rng.choice(['wv', 'wv:' + rb(9), 'wv:' + rb(9) + '|' + rb(17) + '||' + rb(1), 'rv:3|0|40', 'rv:16|16|16', 'rv'])
             return 'f'
         # writes of tens of kilobytes (at, before and past the end; after lengths that are and are not whole units)
         for first in ('w:' + rb(5), 'w:' + rb(16), 'w:' + rb(33), 'wz:70000:3', ''):
